@@ -178,7 +178,12 @@ pub fn display_ident_part(f: &mut std::fmt::Formatter, s: &str) -> Result<(), st
     fn forbidden_subsequent(c: char) -> bool {
         !(c.is_ascii_alphabetic() || c.is_ascii_digit() || c == '_')
     }
+    // words the lexer reads as keywords (see `lexer::keyword`)
+    const KEYWORDS: [&str; 10] = [
+        "let", "into", "case", "prql", "type", "module", "internal", "func", "import", "enum",
+    ];
     let needs_escape = s.is_empty()
+        || KEYWORDS.contains(&s)
         || s.starts_with(forbidden_start)
         || (s.len() > 1 && s.chars().skip(1).any(forbidden_subsequent));
 
